@@ -12,6 +12,16 @@ CLAIMED = {
         note="trusts: the scheduler runtime, x86-TSO (weak-memory effects only via TSan), random rather than exhaustive schedules",
         design="6 C29",
     ),
+    "C30": dict(
+        category="exploration",
+        technique="cooperative serial scheduler + shadow-state monitors with non-pre-emptible snapshots; TSan (plain payload) / ASan free-mode stress",
+        text=("Random-walk schedules of the REAL OptimisticReadWriteLock with a scheduling point at every load/store/edge. "
+              "Monitors: writer exclusivity, validate() soundness against an exact snapshot of payload + commit state, "
+              "abort restores the readers' version, upgrade only on a fresh lease, bounded progress (step budget). "
+              "Held on the schedules explored; the contended paths (failed validations/upgrades/try-writes) are counted in evidence."),
+        note="trusts: the scheduler runtime; liveness only as bounded progress; x86-TSO",
+        design="6 C30",
+    ),
 }
 
 NOT_APPLICABLE = {}
